@@ -123,6 +123,7 @@ func compositeSymKey(m *MapV, k Value) bool {
 }
 
 func (e *Engine) mapGet(m *MapV, k Value) (Value, bool) {
+	e.checkHashable(k)
 	if compositeSymKey(m, k) {
 		if i := e.scanKey(m, k); i >= 0 {
 			return m.vals[i], true
@@ -147,7 +148,20 @@ func (e *Engine) mapGet(m *MapV, k Value) (Value, bool) {
 	}
 	if it, ok := k.(Iface); ok {
 		if s, ok := it.V.(Str); ok && !s.isC() {
-			panic(unsupported("symbolic iface string key"))
+			// interface-typed key holding a symbolic string: fork over the stored keys of dynamic type string
+			for i, kk := range m.keys {
+				if m.del[i] {
+					continue
+				}
+				if kit, ok := kk.(Iface); ok && kit.T != nil && types.Identical(kit.T, it.T) {
+					if ks, ok := kit.V.(Str); ok {
+						if e.Branch(strEq(s, ks)) {
+							return m.vals[i], true
+						}
+					}
+				}
+			}
+			return nil, false
 		}
 		if ki, ok := it.V.(Int); ok && ki.T != nil {
 			// interface-typed key holding a symbolic integer: fork over stored keys of the same dynamic type
@@ -184,6 +198,7 @@ func (e *Engine) mapGet(m *MapV, k Value) (Value, bool) {
 }
 
 func (e *Engine) mapSet(m *MapV, k, v Value) {
+	e.checkHashable(k)
 	if compositeSymKey(m, k) {
 		if i := e.scanKey(m, k); i >= 0 {
 			m.vals[i] = v
@@ -221,6 +236,7 @@ func (e *Engine) mapSet(m *MapV, k, v Value) {
 
 // mapDelete removes key k; a symbolic string key is matched against the stored keys by forking.
 func (e *Engine) mapDelete(m *MapV, k Value) {
+	e.checkHashable(k)
 	if compositeSymKey(m, k) {
 		if i := e.scanKey(m, k); i >= 0 {
 			m.del[i] = true
@@ -599,5 +615,13 @@ func (e *Engine) checkStrView(c *Value) {
 	if e.strViews[c] {
 		delete(e.strViews, c) // one report per byte
 		e.reportKind("memory", "write to bytes that a string made with unsafe.String still shares, in "+e.curFunc(), nil)
+	}
+}
+
+// checkHashable: using an interface value whose dynamic type is a slice, map or func (or holds one)
+// as a map key is a run-time panic.
+func (e *Engine) checkHashable(k Value) {
+	if it, ok := k.(Iface); ok && it.T != nil && !types.Comparable(it.T) {
+		e.goPanicStr("hash of unhashable type " + it.T.String())
 	}
 }
